@@ -14,5 +14,5 @@ def main (args : List String) : IO UInt32 :=
       [MonEntry.ofMonitor "C08" RefCount.monC08, MonEntry.ofMonitor "C09" RefCount.monC09],
     mkEntryH "refcount-consumers" RefCount.Cons.cmodel RefCount.Cons.CObs.parse
       [MonEntry.ofMonitor "C10" RefCount.Cons.monC10, MonEntry.ofMonitor "C08c" RefCount.Cons.monC08c,
-       MonEntry.ofMonitor "C09c" RefCount.Cons.monC09c] (cap := 20000)
+       MonEntry.ofMonitor "C09c" RefCount.Cons.monC09c] (cap := 40000)
   ] args
